@@ -50,7 +50,8 @@ def cases(draw, tier):
         funcs.append({"agg": agg, "ignore": draw(st.booleans()),
                       "rma": draw(st.sampled_from(["nan", ["tuple", 0], "plain"])),
                       "prob": draw(st.sampled_from([0.0, 0.5, 0.3, 1.0])),
-                      "weighted": draw(st.booleans())})
+                      "weighted": draw(st.booleans()),
+                      "tracing": draw(st.sampled_from([None, True, False]))})
     spec["funcs"] = funcs
     spec["perm"] = draw(st.permutations(list(range(n))))
     # the SAME function object may appear more than once in the list handed to calculate
@@ -84,13 +85,16 @@ def make_func(kind, spec, farg, warg, N=None):
     ra = Q.rma_arg(spec["rma"])
     w = warg if spec["weighted"] else None
     cls = getattr(mod, pre + agg)
+    kw = {}
+    if kind == "ccube" and spec.get("tracing") is not None:
+        kw["tracing"] = bool(spec["tracing"])  # ffuncs build a different closure when tracing is off
     if agg == "count":
-        return cls(w, N, spec["ignore"], ra)
+        return cls(w, N, spec["ignore"], ra, **kw)
     if agg in ("max", "min"):
         return cls(farg, spec["ignore"], ra)
     if agg == "quantile":
         return cls(farg, spec["prob"], w, spec["ignore"], ra)
-    return cls(farg, w, spec["ignore"], ra)
+    return cls(farg, w, spec["ignore"], ra, **kw)
 
 
 def same(a, b):
